@@ -18,12 +18,16 @@ EXTENDS Rat, Sequences, FiniteSets, TLC, Json
 
 CONSTANTS MaxBatch, Lattice, Ratios
 
-\* nodes: <<u, v, emodulus>>
-O == <<0, 0, 1>>
-A == <<6, 0, 2>>
-B == <<0, 6, 4>>
-M == <<2, 2, 3>>
-Triangles == {<<O, A, M>>, <<A, B, M>>, <<B, O, M>>}
+\* nodes: <<u, v, emodulus>>.  Two tables with the same number of nodes (and,
+\* in the adapter, the same identifier in their metadata) but different node
+\* positions, support and values: what a call returns is a function of the
+\* table selected for THAT call only.
+Luts == {1, 2}
+O(l) == IF l = 1 THEN <<0, 0, 1>> ELSE <<1, 1, 2>>
+A(l) == IF l = 1 THEN <<6, 0, 2>> ELSE <<7, 1, 1>>
+B(l) == IF l = 1 THEN <<0, 6, 4>> ELSE <<1, 7, 3>>
+M(l) == IF l = 1 THEN <<2, 2, 3>> ELSE <<3, 3, 5>>
+Triangles(l) == {<<O(l), A(l), M(l)>>, <<A(l), B(l), M(l)>>, <<B(l), O(l), M(l)>>}
 
 Cross(ax, ay, bx, by) == ax * by - ay * bx
 \* twice the signed area of (a, b, p)
@@ -41,19 +45,20 @@ Interp(t, p) ==
         w3 == Area2(t[1], t[2], p)
     IN  Norm(w1 * t[1][3] + w2 * t[2][3] + w3 * t[3][3], w1 + w2 + w3)
 
-InHull(p) == \E t \in Triangles : InTri(t, p)
-OnHullEdge(p) == \/ Area2(O, A, p) = 0 \/ Area2(A, B, p) = 0 \/ Area2(B, O, p) = 0
+InHull(l, p) == \E t \in Triangles(l) : InTri(t, p)
+OnHullEdge(l, p) == \/ Area2(O(l), A(l), p) = 0 \/ Area2(A(l), B(l), p) = 0
+                    \/ Area2(B(l), O(l), p) = 0
 
 \* interpolation in the LUT's own set-up (continuous across the fan's edges)
-ELut(p) == IF ~InHull(p) THEN RNaN
-           ELSE Interp(CHOOSE t \in Triangles : InTri(t, p), p)
+ELut(l, p) == IF ~InHull(l, p) THEN RNaN
+              ELSE Interp(CHOOSE t \in Triangles(l) : InTri(t, p), p)
 
 \* the expected modulus for set-up ratios [wr, qr, vr]
-Expected(p, par) == RMul(ELut(p), Norm(par.qr * par.vr, par.wr * par.wr * par.wr))
+Expected(p, par) == RMul(ELut(par.lut, p), Norm(par.qr * par.vr, par.wr * par.wr * par.wr))
 
 MCLattice == {-1, 0, 1, 2, 3, 4, 5, 7}
 VARIABLES batch, par
-Params == [wr : Ratios, qr : Ratios, vr : Ratios]
+Params == [wr : Ratios, qr : Ratios, vr : Ratios, lut : Luts]
 Init == /\ batch \in UNION {[1..k -> Lattice \X Lattice] : k \in 1..MaxBatch}
         /\ par \in Params
 Next == UNCHANGED <<batch, par>>
@@ -66,9 +71,9 @@ Laws ==
         LET p == batch[i] IN
         /\ Expected(p, [par EXCEPT !.vr = 2 * par.vr]) = RMul(Expected(p, par), FromInt(2))
         /\ Expected(p, [par EXCEPT !.qr = 2 * par.qr]) = RMul(Expected(p, par), FromInt(2))
-        /\ Expected(p, [wr |-> 2 * par.wr, qr |-> 8 * par.qr, vr |-> par.vr]) = Expected(p, par)
+        /\ Expected(p, [par EXCEPT !.wr = 2 * par.wr, !.qr = 8 * par.qr]) = Expected(p, par)
 
 Emit == PrintT(<<"H", ToJson([batch |-> batch, par |-> par,
                               expected |-> [i \in 1..Len(batch) |-> Expected(batch[i], par)],
-                              onhull |-> [i \in 1..Len(batch) |-> OnHullEdge(batch[i])]])>>)
+                              onhull |-> [i \in 1..Len(batch) |-> OnHullEdge(par.lut, batch[i])]])>>)
 =============================================================================
